@@ -108,8 +108,13 @@ ERROR_CLASSES: dict[str, dict[str, Any]] = {
 ROM_END = {"low": 0x6FFFFC, "low2": 0xFFFFFC, "high": 0xFFFFFC}
 
 
-def error_node(klass: str, prog: progen.Prog) -> progen.Node:
-    text = ERROR_CLASSES[klass]["text"].replace("$UNMAPPED", hex(prog.unmapped_addr)).replace("$ROMEND", hex(ROM_END.get(prog.mapping, 0)))
+# every bank at an edge of an unmapped range of the default mappings (low2 leaves no bank unmapped)
+UNMAPPED_BANKS = {"low": [0x70, 0x72, 0x7D, 0xD0, 0xE0, 0xEF, 0xF0, 0xFF], "high": [0x00, 0x20, 0x3F, 0x80, 0xA0, 0xBF]}
+
+
+def error_node(klass: str, prog: progen.Prog, addr: int | None = None) -> progen.Node:
+    unmapped = addr if addr is not None else prog.unmapped_addr
+    text = ERROR_CLASSES[klass]["text"].replace("$UNMAPPED", hex(unmapped)).replace("$ROMEND", hex(ROM_END.get(prog.mapping, 0)))
     return {"k": "error", "t": text}
 
 
@@ -207,7 +212,7 @@ def build_files(case: dict[str, Any]) -> tuple[progen.Prog, dict[str, bytes], di
     prog = progen.Prog.from_record(case["prog"])
     ins = case.get("insert")
     if ins is not None:
-        prog = progen.insert_at(prog, ins["slot"], error_node(ins["class"], prog))
+        prog = progen.insert_at(prog, ins["slot"], error_node(ins["class"], prog, ins.get("addr")))
     return prog, prog.all_files(), out_roles(prog.all_roles())
 
 
@@ -348,6 +353,10 @@ def sub_cases(case: dict[str, Any], stats: Stats) -> Iterator[dict[str, Any]]:
         if not ok_slots:
             continue
         s0 = rng.choice(ok_slots)
+        if klass == "unmapped_bank" and "map" not in prog.features:
+            # one execution per edge bank of the unmapped ranges of this mapping
+            for bank in UNMAPPED_BANKS.get(prog.mapping, []):
+                yield dict(base, spec=specs[rng.choice(ENTRIES)], insert={"class": klass, "slot": s0, "addr": (bank << 16) | 0x8000}, knobs={})
         for e in ENTRIES:
             yield dict(base, spec=specs[e], insert={"class": klass, "slot": s0}, knobs={}, repeat=rng.random() < 0.25)
         others = [s for s in ok_slots if s is not s0]
